@@ -84,6 +84,43 @@ def prism_mesh():
     return [[A, C, B], [a, b, c], [A, B, b], [A, b, a], [B, C, c], [B, c, b], [C, A, a], [C, a, c]]
 
 
+def pyramid_mesh(h, order="A"):
+    """square pyramid on the base [-2,2]^2 x {0} with apex (0,0,h) (doubled); order A: both base facets first,
+    order B: one base facet first, the other one last"""
+    a, b, c, d, p = [-2, -2, 0], [2, -2, 0], [2, 2, 0], [-2, 2, 0], [0, 0, h]
+    base, sides = [[a, c, b], [a, d, c]], [[a, b, p], [b, c, p], [c, d, p], [d, a, p]]
+    return base + sides if order == "A" else [base[0]] + sides + [base[1]]
+
+
+def house_mesh(h):
+    """box [-2,2]^2 x [-4,0] with a pyramid roof of apex (0,0,h): the 10 facets of the box (without its top) come first"""
+    lo, size = (-2, -2, -4), (4, 4, 4)
+    tris = []
+    for d in DIRS6:
+        if d != (0, 0, 1):
+            tris += cell_quads(lo, size, d)
+    a, b, c, d, p = [-2, -2, 0], [2, -2, 0], [2, 2, 0], [-2, 2, 0], [0, 0, h]
+    return [[list(v) for v in t] for t in tris] + [[a, b, p], [b, c, p], [c, d, p], [d, a, p]]
+
+
+def slab_mesh(hz):
+    """box [-2,2] x [-1,1] x [-3,-3+hz]: the two facets of the bottom face first (a box and its stretched copy share them)"""
+    lo, size = (-2, -1, -3), (4, 2, hz)
+    tris = []
+    for d in [(0, 0, -1)] + [x for x in DIRS6 if x != (0, 0, -1)]:
+        tris += cell_quads(lo, size, d)
+    return [[list(v) for v in t] for t in tris]
+
+
+# pairs of DIFFERENT bodies that agree in cheap summaries of their meshes (facet count, leading / last facets, bounding
+# box, volume): (name A, name B, what they share)
+TWINS = [("TriangularMesh_pyrlowA", "TriangularMesh_pyrtallA", "facet count, 2 leading facets"),
+         ("TriangularMesh_pyrlowB", "TriangularMesh_pyrtallB", "facet count, first and last facet"),
+         ("TriangularMesh_houselow", "TriangularMesh_housetall", "facet count, 10 leading facets of 14"),
+         ("TriangularMesh_slab6", "TriangularMesh_slab10", "facet count, 2 leading facets, footprint"),
+         ("TriangularMesh_twinA", "TriangularMesh_twinB", "facet count, bounding box, volume, centroid"),
+         ("TriangularMesh_box", "TriangularMesh_box2", "facet count")]
+
 # ------------------------------------------------------------------------------------------------ catalogue
 T1 = [(0, 0, 0), (4, 0, 0), (0, 4, 0), (0, 0, 4)]
 T2 = [(2, 0, 0), (0, 4, 0), (-2, -2, 0), (0, 0, 6)]
@@ -123,7 +160,14 @@ def catalogue():
     # box2: same face count as box, other geometry
     for name, f2, mk in [("box", box_mesh((4, 2, 6)), "convex"), ("box2", box_mesh((2, 6, 4)), "convex"), ("boxax", box_mesh((4, 2, 6)), "axial"), ("L", cell_mesh(L_CELLS), "axial"),
                          ("U", cell_mesh(U_CELLS), "axial"), ("octa", octa_mesh(4), "convex"), ("tetra", tetra_mesh(T2), "convex"),
-                         ("prism", prism_mesh(), "convex")]:
+                         ("prism", prism_mesh(), "convex"),
+                         # twins (see TWINS): different bodies whose meshes agree in cheap summaries
+                         ("pyrlowA", pyramid_mesh(2, "A"), "convex"), ("pyrtallA", pyramid_mesh(6, "A"), "convex"),
+                         ("pyrlowB", pyramid_mesh(2, "B"), "convex"), ("pyrtallB", pyramid_mesh(6, "B"), "convex"),
+                         ("houselow", house_mesh(2), "convex"), ("housetall", house_mesh(4), "convex"),
+                         ("slab6", slab_mesh(6), "convex"), ("slab10", slab_mesh(10), "convex"),
+                         ("twinA", tetra_mesh([(0, 0, 0), (4, 4, 0), (4, 0, 4), (0, 4, 4)]), "convex"),
+                         ("twinB", tetra_mesh([(4, 0, 0), (0, 4, 0), (0, 0, 4), (4, 4, 4)]), "convex")]:
         lo, hi = _bbox_of_points(f2)
         add(f"TriangularMesh_{name}", {"cls": "TriangularMesh", "f2": f2, "mk": mk}, lo, hi)
     add("Triangle_1", {"cls": "Triangle", "v2": [[0, 0, 0], [4, 0, 0], [0, 4, 0]]}, [0, 0, 0], [4, 4, 0])
@@ -135,6 +179,7 @@ def catalogue():
 
 
 CAT = catalogue()
+TWIN_ONLY = {n for pair in TWINS[:5] for n in pair[:2]}   # bodies that exist for the joint calls only (no scan of their own in the quick tier)
 MAGNET_CLASSES = ("Cuboid", "Cylinder", "Sphere", "CylinderSegment", "Tetrahedron", "TriangularMesh")
 INOUT_CLASSES = ("Tetrahedron", "TriangularMesh")
 
@@ -379,7 +424,104 @@ def run_multi_job(magpy, job):
     return scenes
 
 
+def run_joint_job(magpy, job):
+    """several DIFFERENT meshes at one common pose in ONE call with all observers of the union box (and, for a sub-block,
+    one observer per call): rows of consecutive sources are grouped inside BHJM_magnet_trimesh when it takes them for
+    the same mesh.  Every scene carries its twin so that the spec classifies each observer against BOTH bodies."""
+    ents = [CAT[n] for n in job["bodies"]]
+    kap = kappa_of(job)
+    m = job["m"]
+    R = ROTS[job["ri"]].tolist()
+    p2 = job["p2"]
+    srcs, bodies = [], []
+    for e in ents:
+        s, b = make_source(magpy, e, kap.lam, m)
+        s.position = kap.pos(np.array(p2) / 2)
+        s.orientation = kap.rot(np.array(R))
+        srcs.append(s)
+        bodies.append(b)
+    union = {"lo": [min(e["lo"][i] for e in ents) for i in range(3)], "hi": [max(e["hi"][i] for e in ents) for i in range(3)]}
+    pts = box_points(union, job.get("sub"))
+    o2 = global_obs(R, p2, pts)
+    obs = kap.pos(o2 / 2)
+    n = len(srcs)
+    if job["batch"] == "joint":
+        res = {f: np.asarray(getattr(magpy, "get" + f)(srcs, obs), dtype=float).reshape(n, len(obs), 3) for f in "BHJM"}
+    else:   # one observer per call
+        res = {f: np.stack([np.asarray(getattr(magpy, "get" + f)(srcs, obs[i]), dtype=float).reshape(n, 3) for i in range(len(obs))], axis=1) for f in "BHJM"}
+    scenes = []
+    pose = {"R": R, "p2": p2}
+    for k in range(n):
+        rows = quantize_obs(magpy, kap, m, res["B"][k], res["H"][k], res["J"][k], res["M"][k])
+        sid = job["sid"] + k
+        scenes.append({"sid": sid, "kind": "field", "body": bodies[k], "pose": pose, "ri": job["ri"], "pol": list(POL), "inout": "auto",
+                       "batch": ("joint" if job["batch"] == "joint" else "multi") + f"{k + 1}of{n}", "iface": "object",
+                       "kap": {"id": kap.identity, "dec": job["kap"]["dec"]}, "pair": "+".join(x.split("_", 1)[1] for x in job["bodies"]),
+                       "twin": {"body": bodies[(k + 1) % n], "pose": pose}, "job": job,
+                       "obs": [{"t": sid * 10000 + i, "o": [int(x) for x in o2[i]], **rows[i]} for i in range(len(rows))]})
+    return scenes
+
+
 def run_attr_job(magpy, job):
+    if job.get("seq"):
+        return run_attr_seq_job(magpy, job)
+    return run_attr_ctor_job(magpy, job)
+
+
+SEQ_DIRS = [(1, 2, 3), (3, 1, 2), (2, 3, 1), (-1, 3, 2), (2, -3, 1), (3, 2, -1)]
+
+
+def run_attr_seq_job(magpy, job):
+    """a sequence of assignments (setter / copy keyword) of polarization and magnetization to ONE existing magnet, under the
+    default warning filters or with warnings escalated to errors; after EVERY assignment - whatever its outcome - both
+    attributes and getJ / getM are read back, together with the values before the assignment and the assigned value"""
+    import warnings
+
+    entry = CAT[job["body"]]
+    mu0 = magpy.mu_0
+    src, body = make_source(magpy, entry, 1.0, 1.0, excitation=job["first"])
+    pts = np.array(job["pts"], dtype=int)
+    obs = pts / 2
+    scenes = []
+
+    def read(o):
+        with warnings.catch_warnings():
+            warnings.simplefilter("ignore")
+            return (np.asarray(o.polarization, dtype=float), np.asarray(o.magnetization, dtype=float) * mu0,
+                    np.asarray(o.getJ(obs), dtype=float).reshape(-1, 3), np.asarray(o.getM(obs), dtype=float).reshape(-1, 3) * mu0)
+
+    for k, (attr, dec, via) in enumerate(job["steps"]):
+        val = np.array(SEQ_DIRS[k % len(SEQ_DIRS)], dtype=float) * 10.0 ** dec
+        P0, Mu0, _, _ = read(src)
+        subject, outcome, exc = src, "ok", ""
+        with warnings.catch_warnings(record=True) as rec:
+            warnings.simplefilter("error" if job["filter"] == "error" else "always")
+            try:
+                if via == "setter":
+                    setattr(src, attr, val)
+                else:
+                    subject = src.copy(**{attr: val})
+            except Exception as ex:  # pylint: disable=broad-except
+                outcome, exc, subject = "raised", type(ex).__name__, src   # (a failed copy leaves only the original to look at)
+            if outcome == "ok" and rec:
+                outcome = "warned"
+        P, Mu, J, M = read(subject)
+        A = val if attr == "polarization" else val * mu0
+        rows = []
+        sid = job["sid"] + k        # (the plan reserves one scene id per step)
+        for i in range(len(pts)):
+            g = quant.gross(P, Mu, J[i], M[i], P0, Mu0, A)
+            fin = bool(all(np.isfinite(x).all() for x in (P, Mu, J[i], M[i])))
+            rows.append({"t": sid * 10000 + i, "o": [int(x) for x in pts[i]], "fin": fin, "P": quant.q12(P, g), "Mu": quant.q12(Mu, g),
+                         "J": quant.q12(J[i], g), "M": quant.q12(M[i], g), "P0": quant.q12(P0, g), "Mu0": quant.q12(Mu0, g), "A": quant.q12(A, g)})
+        scenes.append({"sid": sid, "kind": "attr", "body": body, "pose": {"R": np.eye(3, dtype=int).tolist(), "p2": [0, 0, 0]}, "pol": list(POL),
+                       "via": via, "attr": attr, "dec": dec, "seq": True, "outcome": outcome, "exc": exc, "filter": job["filter"], "job": job, "obs": rows})
+        if via == "copy" and outcome != "raised":
+            src = subject    # go on with the copy
+    return scenes
+
+
+def run_attr_ctor_job(magpy, job):
     """assign polarization or magnetization (constructor or setter) and read both attributes and getJ / getM back"""
     entry = CAT[job["body"]]
     mu0 = magpy.mu_0
@@ -403,7 +545,8 @@ def run_attr_job(magpy, job):
         rows.append({"t": job["sid"] * 10000 + i, "o": [int(x) for x in pts[i]], "fin": fin, "P": quant.q12(P, g), "Mu": quant.q12(Mu, g),
                      "J": quant.q12(J[i], g), "M": quant.q12(M[i], g)})
     return [{"sid": job["sid"], "kind": "attr", "body": body, "pose": {"R": np.eye(3, dtype=int).tolist(), "p2": [0, 0, 0]},
-             "pol": list(POL), "via": job["via"], "attr": job["attr"], "dec": job["dec"], "job": job, "obs": rows}]
+             "pol": list(POL), "via": job["via"], "attr": job["attr"], "dec": job["dec"], "seq": False, "outcome": "ok", "exc": "", "filter": "ignore",
+             "job": job, "obs": rows}]
 
 
 def run_job(magpy, job):
@@ -411,6 +554,8 @@ def run_job(magpy, job):
         return run_field_job(magpy, job)
     if job["kind"] == "multi":
         return run_multi_job(magpy, job)
+    if job["kind"] == "joint":
+        return run_joint_job(magpy, job)
     return run_attr_job(magpy, job)
 
 
@@ -454,6 +599,8 @@ def plan(tier):
     kdecs = [-9, 8] if quick else [-9, -7, -5, -3, -1, 2, 5, 8]
     for bi, name in enumerate(names):
         cls = CAT[name]["body"]["cls"]
+        if quick and name in TWIN_ONLY:
+            continue    # (scanned on their own in the thorough tier; in the quick tier they only take part in the joint calls)
         # poses: quick = a rotating subset of the 24 rotations (identity always included), thorough = all
         ris = list(range(24)) if not quick else sorted({0, (5 * bi + 7) % 24, (11 * bi + 13) % 24})
         for ri in ris:
@@ -482,7 +629,35 @@ def plan(tier):
              ("TriangularMesh_octa", "TriangularMesh_box"), ("TriangularMesh_tetra", "TriangularMesh_L")]
     for a, b in pairs if not quick else pairs[:3]:
         new("multi", bodies=[a, b], ris=[0, 0], p2s=[[6, 0, 0], [0, 0, 0]], kap={"id": True, "dec": 0, "salt": ""}, m=1.0, sub="core")
-    # attribute law
+    # DIFFERENT meshes that agree in cheap summaries, jointly in one call, in both orders
+    ident = {"id": True, "dec": 0, "salt": ""}
+    for pi, (a, b, _) in enumerate(TWINS):
+        for x, y in ((a, b), (b, a)):
+            new("joint", bodies=[x, y], ri=0, p2=[0, 0, 0], kap=ident, m=1.0, batch="joint")
+            if not quick or pi < 2:
+                new("joint", bodies=[x, y], ri=0, p2=[0, 0, 0], kap=ident, m=1.0, batch="single", sub="core")
+            if not quick:
+                ri = (7 * pi + 5) % 24
+                p2 = [r.randint(-4, 4) for _ in range(3)]
+                new("joint", bodies=[x, y], ri=ri, p2=p2, kap=ident, m=1.0, batch="joint")
+                new("joint", bodies=[x, y], ri=ri, p2=p2, kap={"id": False, "dec": -3 + 2 * pi, "salt": f"joint:{x}:{y}"}, m=10.0 ** r.randint(-3, 3), batch="joint")
+    if not quick:   # three sources: A, B, A
+        for a, b, _ in TWINS[:3]:
+            new("joint", bodies=[a, b, a], ri=0, p2=[0, 0, 0], kap=ident, m=1.0, batch="joint")
+            sid[0] += 2
+    # attribute law after EVERY assignment of a sequence, whatever its outcome, under default filters and with warnings as errors
+    # (the library warns for |magnetization| < 2000 A/m: steps with decade <= 2)
+    steps = [("magnetization", 6, "setter"), ("magnetization", 2, "setter"), ("polarization", 0, "setter"), ("magnetization", 0, "copy"),
+             ("polarization", -3, "copy"), ("magnetization", 3, "setter"), ("magnetization", -6, "setter"), ("polarization", 6, "setter"),
+             ("magnetization", 1, "copy"), ("magnetization", 9, "copy"), ("polarization", -9, "setter"), ("magnetization", -12, "setter")]
+    if not quick:
+        steps = steps + [(a, d, v) for d in (-9, -3, 2, 3, 4, 12) for a in ("magnetization", "polarization") for v in ("setter", "copy")]
+    for name, pts in INSIDE_PTS.items():
+        for first in ("polarization", "magnetization"):
+            for flt in ("default", "error"):
+                new("attr", body=name, seq=True, first=first, filter=flt, steps=steps, pts=pts)
+                sid[0] += len(steps) + 2
+    # attribute law, one fresh object per assignment
     decs = [-12, -6, -3, 0, 3, 6, 12] if quick else list(range(-12, 13))
     for name, pts in INSIDE_PTS.items():
         for via in ("ctor", "setter"):
@@ -496,9 +671,11 @@ def split_jobs(jobs, n):
     """cost-balanced split (round robin over jobs sorted by an estimate of their cost)"""
     def cost(j):
         if j["kind"] == "attr":
-            return 1
+            return 40 if j.get("seq") else 1
         if j["kind"] == "multi":
             return 4000
+        if j["kind"] == "joint":
+            return 5000 if j["batch"] == "single" else 1500
         e = CAT[j["body"]]
         npts = np.prod([e["hi"][i] - e["lo"][i] + 3 for i in range(3)])
         w = {"CylinderSegment": 6, "TriangularMesh": 4, "Tetrahedron": 2}.get(e["body"]["cls"], 1)
